@@ -811,7 +811,6 @@ func (p *Parser) evaluateImports(ctx context) ([]Statement, error) {
 	// Add functions add variables.
 	for _, imported := range statementsTemp {
 		statement := imported.statement
-		exists := false
 
 		switch statement.StatementType() {
 		case STATEMENT_TYPE_VAR_DEFINITION:
@@ -820,7 +819,7 @@ func (p *Parser) evaluateImports(ctx context) ([]Statement, error) {
 			for _, variable := range definedVariable.Variables() {
 				name := variable.Name()
 
-				if _, exists = ctx.variables[name]; !exists && variable.Public() {
+				if _, exists := ctx.variables[name]; !exists && variable.Public() {
 					ctx.variables[name] = variable
 				}
 			}
@@ -828,13 +827,13 @@ func (p *Parser) evaluateImports(ctx context) ([]Statement, error) {
 			definedFunction := statement.(FunctionDefinition)
 			name := definedFunction.Name()
 
-			if _, exists = ctx.functions[name]; !exists && definedFunction.Public() {
+			if _, exists := ctx.functions[name]; !exists && definedFunction.Public() {
 				ctx.functions[name] = definedFunction
 			}
 		}
 
 		// Prevent code duplication.
-		if !exists && imported.addCode {
+		if imported.addCode {
 			statements = append(statements, statement)
 		}
 	}
